@@ -256,7 +256,7 @@ def gen_pair(rng, letters, maxlen):
         return (kind, a, b) if rng.random() < 0.5 else (kind, b, a)
     if kind == "unrelated":
         h = max(1, len(letters) // 2)
-        return kind, _rand_seq(rng, letters[:h], n), _rand_seq(rng, letters[h:], rng.randint(1, maxlen))
+        return kind, _rand_seq(rng, letters[:h], n), _rand_seq(rng, letters[h:] or letters, rng.randint(1, maxlen))
     a = _rand_seq(rng, letters, n)
     i = rng.randint(0, len(a) - 1)
     j = rng.randint(i + 1, len(a))
